@@ -611,6 +611,18 @@ def corpus(prop=None):
              c + " ins 1 1", c + " fe fwd 0"],
             [c + " erase 1", c + " find 1", c + " fe fwd -1", c + " clear", c + " insh 1 1", c + " erase 1"],
         ]
+    # deep, degenerate shapes of the unbalanced tree (paths longer than 64 and 128 levels below
+    # a node that still has its other subtree pending): traversals, clear, erase of the top
+    for depth in (70, 140):
+        left_chain = ["bt ins 1 100000", "bt ins 2 200000", "bt ins 3 300000"] + \
+                     ["bt ins %d %d" % (4 + i, 99999 - i) for i in range(depth)]
+        right_chain = ["bt ins 1 100000", "bt ins 2 50000", "bt ins 3 40000"] + \
+                      ["bt ins %d %d" % (4 + i, 100001 + i) for i in range(depth)]
+        zigzag = ["bt ins 1 100000", "bt ins 2 200000"] + \
+                 ["bt ins %d %d" % (3 + i, (1000 + i) if i % 2 == 0 else (99000 - i)) for i in range(depth)]
+        for base in (left_chain, right_chain, zigzag):
+            out.append(base + ["bt fe fwd -1", "bt fe rev -1", "bt clear", "bt ins 1 5", "bt fe fwd -1"])
+            out.append(base + ["bt erase 100000", "bt erase 200000", "bt fe fwd -1", "bt clear", "bt clear"])
     out += [
         ["map ins 0 1 1", "map ins 1 2 1", "map ins 2 1 0", "map ins 2 1 1", "map ins 4 3 1", "map find 1",
          "map find 7", "map erase 0", "map erase 0", "map eraseit 1", "map eraseit 1", "map ins 6 1 1",
